@@ -15,7 +15,7 @@ C = {
          "Decides structural necessary conditions of character preservation for every input: output assembly (one content push per token, on every path, from a single unadapted pass over the token vector; everything else pushed is blank material), text confinement (token text replaced only in Token::set_content, called by four reviewed normalisers; tokens constructed only by the lexer; no sequence operation other than iteration/get/len/push-in-lexer/retain-in-delete), no token remover, the skip discipline of the string-rebuilding normaliser, the blank definition of the lexer's whitespace counters, and — by a symbolic slice algebra over the MIR — that the two loop-free re-assemblers (line comments, directives) append consecutive sub-slices of the token's own text that cover it completely (plus blanks / an ASCII case map / trim_ascii_end). The behaviour as a whole is not decided.",
          "Not decided: that try_rewrite_string keeps every character of every line it pushes (loop invariant over strings); lexer value-level losslessness (C13 residue)."),
  "C02": ("static analysis: decision-table extraction (path enumeration of loop-free classifiers) evaluated on enum cubes + dominance rules on MIR",
-         "Decides the hard-break table on all (previous kind, current kind) cubes, that the table is consulted first and cannot be weakened, that the search honours Must/MustNot, that Break decisions become real newlines, the single-line-comment safety net as a decision table of the emission step (with the calls made on every path), the bracket-only zero entries of the spacing table, and that token text changes only through the documented normalisations, each on its own token kind (who calls set_content, dispatch facts, partition / skip discipline of each re-assembler). Not the behaviour as a whole.",
+         "Decides the hard-break table on all (previous kind, current kind) cubes, that the table is consulted first and cannot be weakened, that the search honours Must/MustNot, that Break decisions become real newlines, the single-line-comment safety net as a decision table of the emission step (with the calls made on every path), the bracket-only zero entries of the spacing table, that token text changes only through the documented normalisations, each on its own token kind (who calls set_content, dispatch facts, partition / skip discipline of each re-assembler), and that the normalisers compare characters as characters (no byte-vs-byte comparison of UTF-8 text). Not the behaviour as a whole.",
          "Not decided: generic-bracket re-typing heuristics; full operator-pair gluing matrix; lines for which no wrapping is found keep input counters."),
  "C04": ("static analysis: loop-progress dataflow with inter-procedural must-advance summaries over the resolved call graph; closed panic-site inventory with re-derived guards; call-graph SCC inventory",
          "Decides structural necessary conditions of termination / abort-freedom: progress witness on every cycle path of every parser/lexer/consolidator loop (closures and combinator parameters resolved, reviewed exceptions re-verified), every panic-capable site auto-verified or in a reviewed inventory keyed by canonical operands, search cut-off with fallback, recursion inventory (7 known findings: stack exhaustion), lexer dispatch totality, memoisation of the wrapper's recursion into child lines (a necessary condition of the polynomial-time clause). Six genuine defects were found with these rules and fixed. No running-time bound, no well-foundedness proof.",
@@ -48,19 +48,19 @@ C = {
          "Decides that the pass cursor only advances over pushed tokens (or past the end), that skipped directives and all conditional directives unconditionally get their own line, the exhaustive disjoint partition of directive kinds, the unconditional Eof line, and the closed set of mutators of line token lists. Ordering/parent clauses are not decided.",
          "Not decided: strictly increasing order; parent clauses; multi-pass merging."),
  "C15": ("static analysis: type-level non-interference (flow of the cursor list, shared-reference signatures, deep interior-mutability / unsafe / statics scans)",
-         "Decides clause 1 (cursor tracking never changes the text) for every input and cursor list, and of clauses 2-3 one structural necessary condition: cursors are mapped independently of each other (collections and iterators of cursors are only traversed completely and element-wise). Where a cursor lands is not decided; cursor arithmetic panics are audited under C04.b.",
+         "Decides clause 1 (cursor tracking never changes the text) for every input and cursor list, and of clauses 2-3 one structural necessary condition: cursors are mapped independently of each other (collections and iterators of cursors are only traversed completely and element-wise), the configured newline length measures only tokens that are emitted with it, and the cursor code cuts token text byte-exactly at one separator constant (writer and reader of a position inside a multi-line token agree). Where a cursor lands is not decided; cursor arithmetic panics are audited under C04.b.",
          "Not decided: positions of reported cursors (clauses 2-3)."),
  "C16": ("static analysis: effect confinement (who-may-call over the resolved call graph), write-protocol dominance/origin rules, length accounting, error-discipline scan",
          "Decides for every path and schedule: only format_files can cause a file write; seek -> write -> set_len(returned length) with `?` propagation; every write_all accounted; decode-before-effect on a freshly cleared buffer; check verdict and exit-code plumbing; same writer for files and stdout. OS behaviour and path expansion are not decided.",
          "Not decided: that the OS honours seek/write/set_len; glob/dir expansion; the formatted text itself."),
  "C17": ("static analysis: origin-set agreement, must-check-flag rule, dominance, constant pairing",
-         "Decides that one (encoding, BOM) pair is chosen in decode_file and used for decoding and both write paths, had-errors flags are tested and lead to Err, BOM before data, UTF-16 byte-order pairing, Err(Unsupported) fall-through. encoding_rs tables and the Windows code page are not analysed.",
+         "Decides that one (encoding, BOM) pair is chosen in decode_file and used for decoding and both write paths, had-errors flags are tested and lead to Err, BOM before data, UTF-16 byte-order pairing, Err(Unsupported) fall-through, and what is left in the file is exactly what the writer produced (rewritten from offset 0 and cut to the returned length on every success path). encoding_rs tables and the Windows code page are not analysed.",
          "Not decided: value-level correctness of encoding_rs; cfg(windows) code."),
  "C18": ("static analysis: type facts (deep UnsafeCell walk over pipeline component types and trait implementors, statics, unsafe), dominance and capture-mode rules",
-         "Decides the absence of cross-file channels for every schedule: no mutable statics beyond one idempotent cache, no interior mutability in any shared component, input buffer cleared on every path before each read, shared-only captures, no early exit. rayon is trusted.",
+         "Decides the absence of cross-file channels for every schedule: no mutable statics beyond one idempotent cache, no interior mutability in any shared component, input buffer cleared on every path before each read, shared-only captures, no early exit, and no file leaves the batch (lists of paths only grow; the only dropping adaptor of the path expansion is the formattable-file filter). rayon is trusted.",
          "Not decided: rayon internals; two paths naming the same file."),
  "C19": ("static analysis: callee-identity and ORDER rules on the config builder calls, inspection of the expanded serde impls, AGREE of option inventories, who-reads inventory",
-         "Decides layering (file source, then set_override per -C item, never set_default / required(false)), strict deserialisation in the expanded impls, errors before any effect, agreement of struct/docs()/CONFIGURATION.md, one conversion site per option. The ancestor walk's arithmetic and the config crate's semantics are not decided.",
+         "Decides layering (file source, then set_override per -C item, never set_default / required(false)), strict deserialisation in the expanded impls, errors before any effect, agreement of struct/docs()/CONFIGURATION.md, one conversion site per option, every -C item applied, the ancestor search visiting every ancestor nearest first, and no narrowing integer cast on the configuration path (an out-of-range value is rejected by the declared field type, not wrapped). The ancestor walk's arithmetic and the config crate's semantics are not decided.",
          "Not decided: find_config_file's loop arithmetic; semantics of the `config` crate."),
 }
 
